@@ -110,30 +110,41 @@ func group[T Opcoder](opcodes []opcode[T]) ([]maskGroup[T], error) {
 	return groups, nil
 }
 
+// ambiguous checks if there is a sequence of bytes matched by both o1 and o2.
+//
+// Such a sequence exists if and only if opcodes agree in all bits which are
+// set in masks of both of them. Bits set in just one mask (or in none) can be
+// chosen to match and the shorter opcode matches any bytes behind its end.
+func ambiguous[T Opcoder](o1 opcode[T], o2 opcode[T]) bool {
+	l := len(o1.opcode.Mask)
+	if l2 := len(o2.opcode.Mask); l2 < l {
+		l = l2
+	}
+
+	for i := 0; i < l; i++ {
+		common := o1.opcode.Mask[i] & o2.opcode.Mask[i]
+		if (o1.masked[i]^o2.masked[i])&common != 0 {
+			return false
+		}
+	}
+
+	return true
+}
+
 // checkConflicts asserts that no instruction conflicts with one another.
 //
-// The non-conflicting check is to be full n^2 algorithm. Please note that we
-// cannot match only for j which is greater than i as instructions can be prefix
-// of one another. In other words, the relation of being conflicting is in
-// general non-symmetrical. This holds even in case all instructions have the
-// same length as mask of one instruction can be bitwise subset of another mask.
+// Two instructions conflict if there is a sequence of bytes matched by both of
+// them. Instructions in a single group are already known not to conflict, so
+// only instructions of different groups are compared. The check is a full n^2
+// algorithm.
 func checkConflicts[T Opcoder](groups []maskGroup[T]) error {
-	// Make sure that no pair of opcodes conflicts.
-	//
-	// This has to be full n^2 algorithm - we cannot match only for j which
-	// is greater than i as instructions can be prefix of one another. In
-	// other words, the relation of being conflicting is in general
-	// non-symmetrical.
 	for i, gi := range groups {
-		for j, gj := range groups {
-			if i == j {
-				continue
-			}
-
-			for _, o := range gj.opcodes {
-				opc, ok := gi.matchInstruction(o.opcode.Bytes)
-				if ok {
-					return duplicateOpcodeErr(o, opc)
+		for _, gj := range groups[i+1:] {
+			for _, o1 := range gi.opcodes {
+				for _, o2 := range gj.opcodes {
+					if ambiguous(o1, o2) {
+						return duplicateOpcodeErr(o1, o2)
+					}
 				}
 			}
 		}
